@@ -111,6 +111,29 @@ fn c09_argtype_int_overflow() {
     core::mem::forget(r);
 }
 
+// concrete witnesses (NO symbolic input - these are ordinary tests run through the same tool chain, kept because the
+// symbolic 20-digit harness above is thorough-tier only): literals just beyond the integer range, both signs
+macro_rules! overflow_witness {
+    ($name:ident, $lit:expr) => {
+        #[kani::proof]
+        #[kani::unwind(24)]
+        #[kani::stub(alloc::fmt::format, fmt_stub)]
+        #[kani::stub(<f64 as core::str::FromStr>::from_str, f64_from_str_model)]
+        #[kani::stub(chrono::DateTime::<FixedOffset>::parse_from_rfc3339, rfc3339_stub)]
+        fn $name() {
+            let s: &str = $lit;
+            let ty = get_arg_type(s, false);
+            assert!(ty != ArgType::Integer, "a literal that does not fit the integer type is not classified as an integer");
+            let r = parse_dataoperator("=", s, ty);
+            kani::cover!(r.is_ok(), "accepted as a string");
+            core::mem::forget(r);
+        }
+    };
+}
+overflow_witness!(c09_witness_overflow_pos, "9223372036854775808");
+overflow_witness!(c09_witness_overflow_neg, "-9223372036854775809");
+overflow_witness!(c09_witness_overflow_20digits, "99999999999999999999");
+
 // NOT decided here: Query::parse on the bare keywords "SELECT" / "ADD" / "DELETE" (fixed-width slices [7..], [4..]).
 // Any harness from which Constraint::parse is reachable pulls in the regex crate, on which kani-compiler 0.68
 // crashes (internal compiler error in regex_automata::meta::strategy::new); see DESIGN.md.
